@@ -381,8 +381,17 @@ def trace_ids(chk):
         m = re.fullmatch(r'as_(u8|u16|u32|u64|usize)', op)
         if m:
             return '(%s & %d)' % (xs[0], (1 << W[m.group(1)]) - 1)
-        if op in ('wrapping_add',):
+        # the identifier arithmetic is u16 (Builder::trace_identifier takes a u16): wrapping / saturating forms at that width
+        if op == 'wrapping_add':
             return '((%s + %s) & 65535)' % (xs[0], xs[1])
+        if op == 'wrapping_sub':
+            return '((%s - %s) & 65535)' % (xs[0], xs[1])
+        if op == 'saturating_add':
+            return 'min(%s + %s, 65535)' % (xs[0], xs[1])
+        if op == 'saturating_sub':
+            return 'max(%s - %s, 0)' % (xs[0], xs[1])
+        if op in ('Max', 'Min') and len(xs) == 2:
+            return '%s(%s, %s)' % (op.lower(), xs[0], xs[1])
         if re.fullmatch(r'call:(num|convert)::from', op) and len(xs) == 1:
             return xs[0]
         return None
